@@ -16,21 +16,27 @@ import Nexus.L2.Router
 namespace Driver.L2
 open Lean Nexus Nexus.L2
 
-partial def toWVal : Json → Except String WVal
+/-- publication ids of the PUBLISHED messages seen so far: `{"$pub": j}` names the j-th -/
+abbrev Pubs := List Nat
+
+partial def toWValP (pubs : Pubs) : Json → Except String WVal
   | .null => pure .null
   | .bool b => pure (.bool b)
   | .num n => if n.exponent == 0 then pure (.int n.mantissa) else throw "non-integer number"
   | .str s => pure (.str s)
   | .arr a => do
-    let l ← a.toList.mapM toWVal
+    let l ← a.toList.mapM (toWValP pubs)
     pure (.list l)
   | .obj o => do
     let kvs := o.toList
     match kvs with
     | [("$sid", .num n)] => pure (.int (sidOf n.mantissa.toNat))
+    | [("$pub", .num n)] => pure (.int (pubs.getD n.mantissa.toNat (pubBase + 90000000 + n.mantissa.toNat)))
     | _ =>
-      let l ← kvs.mapM (fun (k, v) => do let w ← toWVal v; pure (k, w))
+      let l ← kvs.mapM (fun (k, v) => do let w ← toWValP pubs v; pure (k, w))
       pure (.dict l)
+
+def toWVal (j : Json) : Except String WVal := toWValP [] j
 
 partial def ofWVal : WVal → Json
   | .null => .null
@@ -96,8 +102,8 @@ def asStrE (v : WVal) : Except String String :=
 
 def nth (l : List WVal) (i : Nat) : WVal := l.getD i .null
 
-def toMsg (j : Json) : Except String Msg := do
-  let v ← toWVal j
+def toMsg (pubs : Pubs) (j : Json) : Except String Msg := do
+  let v ← toWValP pubs j
   match v with
   | .list (.int code :: f) =>
     match code with
@@ -162,7 +168,7 @@ def toConfig (j : Json) : Config :=
       | _ => none
     history := (getArr j "history").map fun x => (getStr x "topic", getStr x "match", getNat x "limit") }
 
-def toROp (j : Json) : Except String ROp := do
+def toROp (pubs : Pubs) (j : Json) : Except String ROp := do
   let op := getStr j "op"
   let s := getNat j "s"
   match op with
@@ -174,7 +180,7 @@ def toROp (j : Json) : Except String ROp := do
     pure (.join (getStr j "realm" "r1") s (getBool j "local" true) details roles (getNat j "cap" 64))
   | "msg" =>
     match j.getObjVal? "m" with
-    | .ok m => do pure (.sess s (.msg s (← toMsg m)))
+    | .ok m => do pure (.sess s (.msg s (← toMsg pubs m)))
     | _ => throw "msg without m"
   | "drop" => pure (.sess s (.drop s))
   | "stall" => pure (.sess s (.stall s))
@@ -204,29 +210,41 @@ def toConfigs (c : Json) : List Config :=
     | .ok (.arr a) => a.toList.map toConfig
     | _ => [toConfig c]
 
-partial def loop (h : IO.FS.Stream) (r : Option Router) : IO Unit := do
+def publishedIds (o : RObserved) : List Nat :=
+  let sorted := o.out.mergeSort (fun a b => a.1 ≤ b.1)
+  sorted.flatMap fun (_, ms) => ms.filterMap fun m => match m with
+    | .published _ p => some p
+    | _ => none
+
+partial def loop (h : IO.FS.Stream) (r : Option Router) (pubs : Pubs := []) : IO Unit := do
   let line ← h.getLine
   if line.isEmpty then return ()
   let line := line.trimRight
-  if line.isEmpty then loop h r else
+  if line.isEmpty then loop h r pubs else
   match Json.parse line with
-  | .error e => do IO.println (Json.mkObj [("err", .str s!"parse: {e}")]).compress; loop h r
+  | .error e => do IO.println (Json.mkObj [("err", .str s!"parse: {e}")]).compress; loop h r pubs
   | .ok j =>
     match j.getObjVal? "cfg", j.getObjVal? "op" with
     | .ok c, .error _ =>
       match Router.create (toConfigs c) with
-      | some r' => do IO.println "{\"ok\":true}"; loop h (some r')
-      | none => do IO.println "{\"err\":\"config\"}"; loop h none
+      | some r' => do IO.println "{\"ok\":true}"; loop h (some r') []
+      | none => do IO.println "{\"err\":\"config\"}"; loop h none []
     | _, _ =>
       match r with
-      | none => do IO.println "{\"err\":\"no router\"}"; loop h r
+      | none => do IO.println "{\"err\":\"no router\"}"; loop h r pubs
       | some r0 =>
-        match toROp j with
-        | .error e => do IO.println (Json.mkObj [("err", .str e)]).compress; loop h r
+        if getStr j "op" == "snapshot" then do
+          let js := Json.mkObj (r0.sizes.map fun (name, sz) =>
+            (name, Json.mkObj (sz.map fun (k, n) => (k, Json.num (JsonNumber.fromNat n)))))
+          IO.println (Json.mkObj [("out", Json.mkObj []), ("closed", Json.arr #[]), ("panic", Json.null), ("sizes", js)]).compress
+          loop h r pubs
+        else
+        match toROp pubs j with
+        | .error e => do IO.println (Json.mkObj [("err", .str e)]).compress; loop h r pubs
         | .ok op =>
           let (obs, r1) := Router.step r0 op
           IO.println (render obs)
-          loop h (some r1)
+          loop h (some r1) (pubs ++ publishedIds obs)
 
 def run (_args : List String) : IO UInt32 := do
   loop (← IO.getStdin) none
